@@ -15,7 +15,7 @@ import time
 from harness.sim import Sim
 from harness import monitors
 
-PROPERTIES = ["C09", "C06"]
+PROPERTIES = ["C09", "C06", "C03", "C05"]
 ORDER = 30
 
 
@@ -184,7 +184,7 @@ def scenario_members(repo, seed, tmpdir=None, committed=False):
     return sim, viols, None
 
 
-def scenario_own_vs_installed(repo, seed, tmpdir=None, extra=8):
+def scenario_own_vs_installed(repo, seed, tmpdir=None, extra=8, then_elect=False):
     """A follower's OWN compaction is pending (started on one tick, completed on the next) when the leader's newer
     snapshot and further entries arrive in between: completing the own compaction must not touch the new log (its
     position lies below the installed snapshot); the follower converges."""
@@ -238,6 +238,35 @@ def scenario_own_vs_installed(repo, seed, tmpdir=None, extra=8):
                       "what": "node %s started its own compaction at position %d, installed the leader's snapshot before the compaction "
                               "completed, and does not converge: applied %d (commit %d, log %d..%d), leader applied %d"
                               % (C, own_pos, co.raftLastApplied, co.raftCommitIndex, idx[0], idx[-1], lo.raftLastApplied)})
+    if then_elect:
+        # C03: the node that went through this is made LEADER (the old leader is cut off, only its timer runs): its log or
+        # snapshot must hold every committed command
+        committed_to = lo.raftCommitIndex
+        for j in (B, C):
+            sim.disconnect(L, j)
+        sim.connect(C, B)
+        for _ in range(200):
+            sim.tick(C, 0.0625)
+            sim.deliver_all(among={B, C})
+            sim.tick(B, 0.0)
+            sim.deliver_all(among={B, C})
+            if sim.objs[C]._isLeader():
+                break
+        viols = [v for v in viols if v["signature"].startswith("sm-safety")]
+        if not sim.objs[C]._isLeader():
+            return sim, viols, "the node did not win the election"
+        try:
+            snap_last = sim.P(C, "serializer").deserialize()[1][1]
+        except Exception:
+            snap_last = 1
+        have = set(e[0] for e in sim.log_of(C))
+        missing = [p for p in range(2, committed_to + 1) if p > snap_last and p not in have]
+        if missing:
+            viols.append({"signature": "leader-completeness:leader-lacks-committed-entry",
+                          "what": "node %s (own compaction at %d completed over an installed snapshot) became leader of term %d; committed "
+                                  "positions %s are neither in its log (%d..%d) nor covered by its snapshot (up to %d)"
+                                  % (C, own_pos, sim.objs[C].raftCurrentTerm, missing[:6], min(have), max(have), snap_last)})
+        return sim, viols, None if installed else "snapshot was not installed between the two ticks"
     return sim, viols, None if installed else "snapshot was not installed between the two ticks"
 
 
@@ -288,6 +317,45 @@ def run(ctx):
     t0 = time.time()
     viols, cases, notes, samples = [], 0, [], []
     seen = set()
+    if ctx.pid == "C03":
+        for sd in range(ctx.seed * 10, ctx.seed * 10 + ctx.scale(3, 12)):
+            for extra in (8, 2):
+                sim, v, note = scenario_own_vs_installed(ctx.repo, sd, None, extra=extra, then_elect=True)
+                cases += 1
+                seen.add(("own-vs-installed-then-leader", "mem", note is None))
+                if note:
+                    notes.append(note)
+                for x in v:
+                    x["replay"] = {"component": "corr.c09_capture", "scenario": "own-vs-installed-then-leader", "mode": "mem",
+                                   "seed": sd, "extra": extra}
+                viols.extend(v)
+            if viols:
+                break
+        r = {"name": "corr.c09_capture", "cases": cases, "distinct": len(seen), "violations": viols[:3],
+             "coverage": {"scenarios": sorted(str(s) for s in seen), "notes": sorted(set(notes))[:6]},
+             "samples": samples, "wall_s": round(time.time() - t0, 2)}
+        if not any(s[2] for s in seen):
+            r["inconclusive"] = "the node with the interrupted compaction never became leader"
+        return r
+    if ctx.pid == "C05":
+        # C05: "no node stays permanently behind": the follower whose own compaction was pending while the leader's
+        # snapshot and further entries arrived must converge
+        for sd in range(ctx.seed * 10, ctx.seed * 10 + ctx.scale(3, 12)):
+            for extra in (8, 2, 14):
+                sim, v, note = scenario_own_vs_installed(ctx.repo, sd, None, extra=extra)
+                cases += 1
+                seen.add(("own-vs-installed", "mem", note is None))
+                v = [x for x in v if x["signature"] == "snapshot:own-compaction-damages-installed-log" and "converge" in x["what"]]
+                for x in v:
+                    x["replay"] = {"component": "corr.c09_capture", "scenario": "own-vs-installed", "mode": "mem", "seed": sd}
+                viols.extend(v)
+            if viols:
+                break
+        r = {"name": "corr.c09_capture", "cases": cases, "distinct": len(seen), "violations": viols[:3],
+             "coverage": {"scenarios": sorted(str(s) for s in seen)}, "samples": samples, "wall_s": round(time.time() - t0, 2)}
+        if not any(s[2] for s in seen):
+            r["inconclusive"] = "no snapshot installed while an own compaction was pending"
+        return r
     for sd in range(ctx.seed * 10, ctx.seed * 10 + ctx.scale(2, 10)):
         for mode in ("mem", "file"):
             for name, fn in (("blocked", scenario_blocked), ("plain", scenario_plain),
@@ -326,6 +394,9 @@ def replay(ctx, violation):
     fns = {"blocked": scenario_blocked, "plain": scenario_plain, "members-pending": scenario_members,
            "own-vs-installed": scenario_own_vs_installed, "restore-removal": scenario_restore_removal,
            "members-applied": lambda r, s_, t: scenario_members(r, s_, t, committed=True)}
+    if rp.get("scenario") == "own-vs-installed-then-leader":
+        sim, v, note = scenario_own_vs_installed(ctx.repo, rp.get("seed", 1), None, extra=rp.get("extra", 8), then_elect=True)
+        return {"violated": bool(v), "violations": v[:5], "note": note}
     fn = fns.get(rp.get("scenario"), scenario_plain)
     tmp = ctx.tmpdir() if rp.get("mode") == "file" else None
     sim, v, note = fn(ctx.repo, rp.get("seed", 1), tmp)
